@@ -96,6 +96,13 @@ theorem expiry_clears (c : Cfg) (s : MSt) (op : Op) (he : expired s op.now = tru
     simp only [Op.now] at he
     have he' : expired { s with inDowntime := on } now = true := he
     rw [step_downtime]; simp [getAck_of_expired, he']
+  | pause on now =>
+    simp only [Op.now] at he
+    have he' : expired { s with paused := on } now = true := he
+    rw [step_pause]; simp [getAck_of_expired, he']
+  | remind now =>
+    simp only [Op.now] at he
+    rw [step_remind]; simp [getAck_of_expired, he]
 
 /-- **stored_expiry_is_requested.**  Every entry point stores the expiry the operation asked for (the plain
     external command has no such argument and stores none). -/
@@ -115,18 +122,41 @@ theorem accepted_ack_stores_requested_expiry (c : Cfg) (s : MSt) (via : Via) (st
   · simp [hng]
   · simp [hc] at hacc
 
-/-- **handled_iff.**  At every look the object counts as handled iff it is a problem and acknowledged — or in a
-    downtime, the other half of the attribute; it is a problem iff a result has been accepted and the state is not
-    OK/Up.  In particular, outside downtimes: handled iff acknowledged problem. -/
+/-- **handled_iff.**  Whichever reader looks first after an operation — `GetHandled()`, `GetSeverity()` or
+    `GetAcknowledgement()` — it sees the acknowledgement as the lazy expiry leaves it, not the raw attribute: with `p` the
+    state the operation itself left (raw attribute `p.ack`, possibly still set although its expiry has passed), the object
+    counts as handled iff it is a problem and in a downtime or acknowledged *with an expiry that has not passed*; the
+    severity class says "acknowledged" under the same condition; it is a problem iff a result has been accepted and the
+    state is not OK/Up.  In particular an acknowledgement whose expiry has passed never makes a problem handled. -/
 theorem handled_iff (c : Cfg) (s : MSt) (op : Op) :
+    let p := (opStep c s op).1
     let o := obsOf c (step c s op)
+    o.raw = p.ack ∧ o.ack = ackNow p op.now ∧
+    o.handled = (problemOf c p && (p.inDowntime || ackNow p op.now != .none)) ∧
+    o.sevAck = (problemOf c p && ackNow p op.now != .none) ∧
+    (expired p op.now = true → o.handled = (problemOf c p && p.inDowntime) ∧ o.sevAck = false) ∧
     o.handled = (o.problem && ((step c s op).1.inDowntime || o.ack != .none)) ∧
-    ((step c s op).1.inDowntime = false → o.handled = (o.problem && o.ack != .none)) ∧
     o.problem = ((step c s op).1.base.lastExec.isSome && !isOK c.kind o.state) := by
-  refine ⟨?_, ?_, ?_⟩
+  have hr := getAck_rest (opStep c s op).1 op.now
+  have ha := getAck_ack (opStep c s op).1 op.now
+  refine ⟨rfl, ?_, ?_, ?_, ?_, ?_, ?_⟩
+  · simp [obsOf, step, ha]
+  · simp [obsOf, step, handledOf, problemOf, ha, hr]
+  · simp [obsOf, step, sevAckOf, problemOf, ha, hr]
+  · intro he
+    simp [obsOf, step, handledOf, sevAckOf, problemOf, ha, hr, ackNow, he]
   · simp [obsOf, handledOf, problemOf]
-  · intro h; simp [obsOf, handledOf, problemOf, h]
   · simp [obsOf, problemOf]
+
+/-- **raw_attribute_consistent.**  After every operation the raw attribute differs from what the first reader sees only
+    by the lazy expiry: either they agree, or the expiry stored in the raw state has passed and the reader sees none. -/
+theorem raw_attribute_consistent (c : Cfg) (s : MSt) (op : Op) :
+    let o := obsOf c (step c s op)
+    o.raw = o.ack ∨ (expired (opStep c s op).1 op.now = true ∧ o.ack = .none) := by
+  have ha := getAck_ack (opStep c s op).1 op.now
+  cases he : expired (opStep c s op).1 op.now
+  · left; simp [obsOf, step, ha, ackNow, he]
+  · right; simp [obsOf, step, ha, ackNow, he]
 
 /-- The downtime bit follows the downtime operations and nothing else. -/
 theorem downtime_bit (c : Cfg) (s : MSt) (op : Op) :
@@ -145,6 +175,8 @@ theorem downtime_bit (c : Cfg) (s : MSt) (op : Op) :
   | advance now => rw [step_advance]; simp [getAck_rest]
   | pump now fired => rw [step_pump]; simp [getAck_rest, pumped]
   | downtime on now => rw [step_downtime]; simp [getAck_rest]
+  | pause on now => rw [step_pause]; simp [getAck_rest]
+  | remind now => rw [step_remind]; simp [getAck_rest]
 
 /-- After an accepted result the object is a problem iff the result is not OK/Up. -/
 theorem problem_after_result (c : Cfg) (s : MSt) (new : SState) (es ee now : Int)
@@ -154,12 +186,14 @@ theorem problem_after_result (c : Cfg) (s : MSt) (new : SState) (es ee now : Int
   rw [step_result c s new es ee now hst]
   simp [obsOf, problemOf, stepCore_state]
 
-/-- **ack_notify_once.**  An acknowledge operation requests exactly one Acknowledgement notification if it is accepted
-    and `notify` is set, none otherwise; it fires OnAcknowledgementSet exactly once iff it is accepted; no other
-    operation requests an Acknowledgement notification or fires the set event. -/
+/-- **ack_notify_once.**  An acknowledge operation requests exactly one Acknowledgement notification if it is accepted,
+    `notify` is set and the object is not paused (on a paused object — HA: it is active on the other zone member, which
+    receives the same acknowledgement as a cluster event — none), none otherwise; it fires OnAcknowledgementSet exactly
+    once iff it is accepted, paused or not; no other operation requests an Acknowledgement notification or fires the set
+    event. -/
 theorem ack_notify_once (c : Cfg) (s : MSt) (op : Op) :
     (step c s op).2.nAckN = (match op with
-      | .ack _ _ notify _ _ _ => if (step c s op).2.acc && notify then 1 else 0
+      | .ack _ _ notify _ _ _ => if (step c s op).2.acc && notify && !s.paused then 1 else 0
       | _ => 0) ∧
     (step c s op).2.nSet = (match op with
       | .ack _ _ _ _ _ _ => if (step c s op).2.acc then 1 else 0
@@ -171,11 +205,13 @@ theorem ack_notify_once (c : Cfg) (s : MSt) (op : Op) :
     · rw [step_result_stale c s new es ee now hst]; simp
   | ack via sticky notify persistent expiry now =>
     rw [step_ack]
-    cases hc : (preRefuse c s via expiry now || ackNow s now != .none) <;> cases notify <;> simp
+    cases hc : (preRefuse c s via expiry now || ackNow s now != .none) <;> cases notify <;> cases s.paused <;> simp
   | remove via now => rw [step_remove]; simp
   | advance now => rw [step_advance]; simp
   | pump now fired => rw [step_pump]; simp
   | downtime on now => rw [step_downtime]; simp
+  | pause on now => rw [step_pause]; simp
+  | remind now => rw [step_remind]; simp
 
 /-- **refuse_ok_or_acked.**  The API action and the external commands refuse an object that is OK/Up; every entry
     point — the cluster handler included — refuses an object whose acknowledgement has not run out.  A refused
@@ -199,6 +235,52 @@ theorem cluster_accepts_ok (c : Cfg) (s : MSt) (sticky notify persistent : Bool)
     (step c s (.ack .cluster sticky notify persistent expiry now)).2.acc = true := by
   rw [step_ack]
   simp [preRefuse, h]
+
+/-- **refusal_justified.**  The converse: an acknowledge operation is refused only for a reason the property names — the
+    object is OK/Up (not asked by the cluster handler), it is acknowledged with an expiry that has not passed, or (API
+    action, `_EXPIRE` command) the requested expiry is not in the future. -/
+theorem refusal_justified (c : Cfg) (s : MSt) (via : Via) (sticky notify persistent : Bool) (expiry now : Int)
+    (h : (step c s (.ack via sticky notify persistent expiry now)).2.acc = false) :
+    (via ≠ .cluster ∧ isOK c.kind s.base.state = true) ∨ ackNow s now ≠ .none ∨
+    ((via = .api ∨ via = .extExpire) ∧ expiry ≠ 0 ∧ expiry ≤ now) := by
+  rw [step_ack] at h
+  cases hc : (preRefuse c s via expiry now || ackNow s now != .none)
+  · simp [hc] at h
+  · simp only [Bool.or_eq_true] at hc
+    rcases hc with hc | hc
+    · cases via <;> simp_all [preRefuse, stateOK] <;> (rcases hc with hc | hc <;> simp_all)
+    · right; left; simpa using hc
+
+/-- **ack_comment_as_requested.**  An accepted acknowledgement through the API action or an external command adds exactly
+    one acknowledgement comment, entered now, persistent iff the operation asked for a persistent one (not: iff it is
+    sticky), expiring with the acknowledgement; the cluster handler adds none (comments travel as objects of their own);
+    a refused one adds none. -/
+theorem ack_comment_as_requested (c : Cfg) (s : MSt) (via : Via) (sticky notify persistent : Bool) (expiry now : Int) :
+    let p := step c s (.ack via sticky notify persistent expiry now)
+    p.1.comments = (if p.2.acc && via != .cluster then insertCmt ⟨now, persistent, requestedExpiry via expiry⟩ s.comments
+                    else s.comments) := by
+  have hcme : commentExpire via expiry = requestedExpiry via expiry := by
+    cases via <;> simp [commentExpire, requestedExpiry]
+  rw [step_ack]
+  cases hc : (preRefuse c s via expiry now || ackNow s now != .none)
+  · cases via <;> simp [addsComment, hcme]
+  · simp [getAck_rest]
+
+/-- **removal_removes_comments.**  Remove-acknowledgement through the API action or the external command leaves exactly
+    the persistent acknowledgement comments; the cluster handler leaves the comments alone (their removal is
+    synchronised separately); either way nothing is acknowledged afterwards and the clearing is reported iff something
+    was set. -/
+theorem removal_removes_comments (c : Cfg) (s : MSt) (via : RVia) (now : Int) :
+    let p := step c s (.remove via now)
+    p.1.ack = .none ∧ p.2.nClr = s.ack.ind ∧
+    (via ≠ .cluster → p.1.comments = s.comments.filter (·.persistent) ∧ ∀ cm ∈ p.1.comments, cm.persistent = true) ∧
+    (via = .cluster → p.1.comments = s.comments) := by
+  rw [step_remove]
+  refine ⟨by simp, by simp, ?_, ?_⟩
+  · intro hv
+    have : (via != .cluster) = true := by simpa using hv
+    simp [this]
+  · intro hv; simp [hv]
 
 /-- **cleared_event_once.**  Ghost counters over a whole history, from any start state: the number of
     acknowledgement-cleared events equals the number of acknowledgement-set events (plus one if the history started
@@ -267,14 +349,91 @@ theorem problem_withheld_while_acked (c : Cfg) (s : MSt) (new : SState) (es ee n
     (step c s (.result new es ee now)).2.nProbN = 0 := by
   cases hst : stale s.base ⟨new, es, now⟩
   · rw [step_result c s new es ee now hst] at h ⊢
-    simp only at h
-    simp [h]
+    simp only at h ⊢
+    generalize ackAfterResult c s new now = a1 at h ⊢
+    generalize sendNotification c s.base new = sn
+    generalize s.paused = pa
+    cases a1 <;> cases sn <;> cases pa <;> simp at h ⊢
   · rw [step_result_stale c s new es ee now hst]
+
+/-- **withheld_problem_is_stashed.**  The state notification of an accepted result, in closed form: with `due` = a
+    notification is due by the state machine's rule (C01/C02) and the object is not paused, and `withheld` = the object is
+    acknowledged after the result, or in a downtime, or a state notification is already stashed — the notification is
+    *either* requested (exactly one, of its own type, stash untouched) *or* stashed under its own type (Problem for a
+    problem, Recovery for a recovery; nothing requested) — never both, never neither.  In particular a due Problem
+    notification for an acknowledged object ends up in the stash (for C02's suppressed-notification handling), and
+    without acknowledgement, downtime and stash it is requested. -/
+theorem withheld_problem_is_stashed (c : Cfg) (s : MSt) (new : SState) (es ee now : Int)
+    (hst : stale s.base ⟨new, es, now⟩ = false) :
+    let p := step c s (.result new es ee now)
+    let due := sendNotification c s.base new && !s.paused
+    let recovery := isOK c.kind new && !isOK c.kind s.base.state
+    let withheld := p.1.ack != .none || s.inDowntime || s.suppProblem || s.suppRecovery
+    p.2.nProbN = (if due && !withheld && !recovery then 1 else 0) ∧
+    p.2.nRecN = (if due && !withheld && recovery then 1 else 0) ∧
+    p.1.suppProblem = (s.suppProblem || (due && withheld && !recovery)) ∧
+    p.1.suppRecovery = (s.suppRecovery || (due && withheld && recovery)) ∧
+    (due = true → recovery = false → p.1.ack ≠ .none → p.1.suppProblem = true ∧ p.2.nProbN = 0) := by
+  rw [step_result c s new es ee now hst]
+  simp only
+  generalize ackAfterResult c s new now = a1
+  generalize sendNotification c s.base new = sn
+  generalize isOK c.kind new = okn
+  generalize isOK c.kind s.base.state = oko
+  generalize s.paused = pa
+  generalize s.inDowntime = dt
+  generalize s.suppProblem = pP
+  generalize s.suppRecovery = pR
+  cases a1 <;> cases sn <;> cases okn <;> cases oko <;> cases pa <;> cases dt <;> cases pP <;> cases pR <;> simp
+
+/-- A paused object neither requests nor stashes a state notification (the zone member it is active on does). -/
+theorem paused_result_is_silent (c : Cfg) (s : MSt) (new : SState) (es ee now : Int) (hp : s.paused = true) :
+    let p := step c s (.result new es ee now)
+    p.2.nProbN = 0 ∧ p.2.nRecN = 0 ∧ p.1.suppProblem = s.suppProblem ∧ p.1.suppRecovery = s.suppRecovery := by
+  cases hst : stale s.base ⟨new, es, now⟩
+  · rw [step_result c s new es ee now hst]; simp [hp]
+  · rw [step_result_stale c s new es ee now hst]; simp [getAck_rest]
+
+/-- **reminder_withheld_while_acked.**  Reminders are Problem notifications too: a due reminder is attempted iff the
+    object is in a hard not-OK/Up state, its first Problem notification is not still stashed, it is not in a downtime and
+    — after the lazy expiry, which this reader performs like any other — not acknowledged.  In particular no reminder
+    goes out while an acknowledgement whose expiry has not passed is set, and reminders resume with the first due one
+    after it has passed; no other operation attempts a reminder. -/
+theorem reminder_withheld_while_acked (c : Cfg) (s : MSt) (now : Int) :
+    let p := step c s (.remind now)
+    p.2.nRem = (if s.base.stype == .hard && !isOK c.kind s.base.state && !s.suppProblem && !s.inDowntime &&
+                   ackNow s now == .none then 1 else 0) ∧
+    (ackNow s now ≠ .none → p.2.nRem = 0) ∧ p.1.ack = ackNow s now ∧ p.2.nSet = 0 ∧ p.2.nAckN = 0 ∧ p.2.nProbN = 0 ∧
+    p.1.comments = s.comments ∧ p.1.suppProblem = s.suppProblem := by
+  rw [step_remind]
+  refine ⟨?_, ?_, ?_, ?_⟩
+  · simp [remindable, getAck_ack]
+  · intro h; simp [getAck_ack, h]
+  · simp [getAck_ack]
+  · simp [getAck_rest]
+
+theorem reminder_only_from_remind (c : Cfg) (s : MSt) (op : Op) (h : ∀ now, op ≠ .remind now) :
+    (step c s op).2.nRem = 0 := by
+  cases op with
+  | result new es ee now =>
+    cases hst : stale s.base ⟨new, es, now⟩
+    · rw [step_result c s new es ee now hst]
+    · rw [step_result_stale c s new es ee now hst]
+  | ack via sticky notify persistent expiry now =>
+    rw [step_ack]
+    cases hc : (preRefuse c s via expiry now || ackNow s now != .none) <;> simp
+  | remove via now => rw [step_remove]
+  | advance now => rw [step_advance]
+  | pump now fired => rw [step_pump]
+  | downtime on now => rw [step_downtime]
+  | pause on now => rw [step_pause]
+  | remind now => exact absurd rfl (h now)
 
 /-- **model_trace_meets_spec** (the whole property as one statement).  For every configuration, every start state
     with matching bookkeeping and every finite sequence of acknowledge / remove / result / time-advance operations
-    through the API action, the external commands (with and without `_EXPIRE`) and the cluster events — with arbitrary
-    times, expiry values and flags — the model's trace satisfies the executable specification `specTrace`. -/
+    through the API action, the external commands (with and without `_EXPIRE`) and the cluster events, runs of the
+    comment-expiry timer, due reminders, downtimes and pausing coming and going — with arbitrary times, expiry values and flags — the
+    model's trace satisfies the executable specification `specTrace` (all 30 clauses, no mask). -/
 theorem model_trace_meets_spec (c : Cfg) (sp : SpecSt) (s : MSt) (hr : Rel sp s) (ops : List Op) :
     specTrace c sp (trace c s ops) = none :=
   spec_trace_rel c ops sp s hr
@@ -295,9 +454,12 @@ def exCfg : Cfg := { kind := .service, max := 1, volatile := false }
 def exHost : Cfg := { kind := .host, max := 2, volatile := false }
 
 /-- A hard CRITICAL service with a normal acknowledgement expiring at 2000 and two comments. -/
+def exBase : St := { pending with state := .critical, stype := .hard, attempt := 1, lastHard := .critical, lastExec := some 1000 }
+
 def exNormal : MSt :=
-  { base := ⟨.critical, .hard, 1, .critical, some 1000⟩, ack := .normal, expiry := 2000,
-    comments := [⟨1005, false, 2000⟩, ⟨1005, true, 2000⟩], suppPending := false, inDowntime := false }
+  { base := exBase, ack := .normal, expiry := 2000,
+    comments := [⟨1005, false, 2000⟩, ⟨1005, true, 2000⟩], suppProblem := false, suppRecovery := false,
+    inDowntime := false, paused := false }
 
 def exSticky : MSt := { exNormal with ack := .sticky }
 
@@ -323,9 +485,9 @@ example : expired exNormal (Op.advance 2001).now = true ∧ (step exCfg exNormal
 -- `refuse_ok_or_acked`: both kinds of refusal occur, and an acceptance too
 example : (step exCfg exNormal (.ack .api false true false 0 1100)).2.acc = false ∧
     (step exCfg exNormal (.ack .cluster false true false 0 1100)).2.acc = false ∧
-    (step exCfg { exNormal with ack := .none, base := ⟨.ok, .hard, 1, .ok, some 1000⟩ } (.ack .ext false true false 0 1100)).2.acc = false ∧
+    (step exCfg { exNormal with ack := .none, base := { exBase with state := .ok, lastHard := .ok } } (.ack .ext false true false 0 1100)).2.acc = false ∧
     (step exCfg { exNormal with ack := .none } (.ack .ext true true false 0 1100)).2 =
-      { acc := true, nSet := 1, nClr := 0, nAckN := 1, nProbN := 0 } := by decide
+      { acc := true, nSet := 1, nClr := 0, nAckN := 1, nProbN := 0, raw := .sticky } := by decide
 
 -- `ack_comments_removed`: a late recovery (executed at 1003, processed at 1100) clears the acknowledgement but keeps
 -- the comments entered at 1005; a recovery executed at 1100 removes the non-persistent one
@@ -351,20 +513,74 @@ example : (obsOf exCfg (step exCfg { exNormal with ack := .none } (.downtime tru
     (step exCfg { exNormal with ack := .none, inDowntime := true } (.result .warning 1100 1100 1100)).2.nProbN = 0 := by
   decide
 
+-- `handled_iff` / `raw_attribute_consistent`: at 2001 the raw attribute still says normal, but the first reader —
+-- whichever it is — finds a problem that is neither handled nor in the acknowledged severity class
+example : (opStep exCfg exNormal (.advance 2001)).1.ack = .normal ∧
+    (obsOf exCfg (step exCfg exNormal (.advance 2001))).raw = .normal ∧
+    (obsOf exCfg (step exCfg exNormal (.advance 2001))).handled = false ∧
+    (obsOf exCfg (step exCfg exNormal (.advance 2001))).sevAck = false ∧
+    (obsOf exCfg (step exCfg exNormal (.advance 2000))).handled = true ∧
+    (obsOf exCfg (step exCfg exNormal (.advance 2000))).sevAck = true := by decide
+
+-- `ack_notify_once` with the paused bit: a paused object fires the set event but requests no notification
+example : (step exCfg { exNormal with ack := .none, paused := true } (.ack .cluster true true false 0 1100)).2 =
+      { acc := true, nSet := 1, nClr := 0, nAckN := 0, nProbN := 0, raw := .sticky } := by decide
+
+-- `refusal_justified`: all three reasons occur
+example : (step exCfg exNormal (.ack .api false true false 0 1100)).2.acc = false ∧
+    (step exCfg { exNormal with ack := .none } (.ack .api false true false 1100 1100)).2.acc = false ∧
+    (step exCfg { exNormal with ack := .none } (.ack .cluster false true false 1100 1100)).2.acc = true := by decide
+
+-- `ack_comment_as_requested`: sticky and persistent are independent
+example : (step exCfg { exNormal with ack := .none, comments := [] } (.ack .extExpire true true false 1200 1100)).1.comments =
+      [⟨1100, false, 1200⟩] ∧
+    (step exCfg { exNormal with ack := .none, comments := [] } (.ack .ext false true true 1200 1100)).1.comments =
+      [⟨1100, true, 0⟩] ∧
+    (step exCfg { exNormal with ack := .none, comments := [] } (.ack .cluster false true true 1200 1100)).1.comments = [] := by
+  decide
+
+-- `removal_removes_comments`
+example : (step exCfg exNormal (.remove .ext 1100)).1.comments = [⟨1005, true, 2000⟩] ∧
+    (step exCfg exNormal (.remove .cluster 1100)).1.comments = [⟨1005, false, 2000⟩, ⟨1005, true, 2000⟩] := by decide
+
+-- `withheld_problem_is_stashed`: sticky, CRITICAL → WARNING (hard): stashed as Problem, not requested; the same result
+-- without acknowledgement is requested and leaves the stash empty; with a stash pending it is stashed again; in a
+-- downtime a recovery is stashed as Recovery; a paused object does neither
+example : (step exCfg exSticky (.result .warning 1100 1100 1100)).1.suppProblem = true ∧
+    (step exCfg exSticky (.result .warning 1100 1100 1100)).1.suppRecovery = false ∧
+    (step exCfg exSticky (.result .warning 1100 1100 1100)).2.nProbN = 0 ∧
+    (step exCfg { exNormal with ack := .none } (.result .warning 1100 1100 1100)).2.nProbN = 1 ∧
+    (step exCfg { exNormal with ack := .none } (.result .warning 1100 1100 1100)).1.suppProblem = false ∧
+    (step exCfg { exNormal with ack := .none, suppRecovery := true } (.result .warning 1100 1100 1100)).2.nProbN = 0 ∧
+    (step exCfg { exNormal with ack := .none, inDowntime := true } (.result .ok 1100 1100 1100)).1.suppRecovery = true ∧
+    (step exCfg { exNormal with ack := .none } (.result .ok 1100 1100 1100)).2.nRecN = 1 ∧
+    (step exCfg { exSticky with paused := true } (.result .warning 1100 1100 1100)).1.suppProblem = false ∧
+    (step exCfg { exNormal with ack := .none, paused := true } (.result .warning 1100 1100 1100)).2.nProbN = 0 := by decide
+
+-- `reminder_withheld_while_acked`: acknowledged until 2000 — no reminder at 1500, one at 2001 (the reminder's own
+-- `IsAcknowledged()` notices the expiry: one cleared event), none in a downtime, none for a soft state
+example : (step exCfg exNormal (.remind 1500)).2.nRem = 0 ∧ (step exCfg exNormal (.remind 2001)).2.nRem = 1 ∧
+    (step exCfg exNormal (.remind 2001)).2.nClr = 1 ∧ (step exCfg exNormal (.remind 2001)).2.raw = .none ∧
+    (step exCfg { exNormal with ack := .none } (.remind 1500)).2.nRem = 1 ∧
+    (step exCfg { exNormal with ack := .none, inDowntime := true } (.remind 1500)).2.nRem = 0 ∧
+    (step exCfg { exNormal with ack := .none, base := { exBase with stype := .soft } } (.remind 1500)).2.nRem = 0 := by decide
+
 /-- A history through all entry points that exercises every kind of clearing. -/
 def exOps : List Op :=
   [.result .critical 1010 1010 1010, .ack .api false true false 1100 1020, .result .critical 1030 1030 1030,
    .result .warning 1040 1040 1040, .ack .ext true false true 0 1050, .result .critical 1060 1060 1060,
    .ack .cluster false true false 0 1065, .result .ok 1070 1070 1070, .result .unknown 1080 1080 1080,
    .ack .cluster true true false 1090 1085, .advance 1095, .ack .extExpire false true false 1105 1100, .pump 1104 true,
-   .downtime true 1105, .pump 1106 true, .remove .api 1110]
+   .downtime true 1105, .pump 1106 true, .remove .api 1110, .pause true 1111, .ack .cluster true true false 0 1112,
+   .pause false 1113, .result .warning 1120 1120 1120, .remind 1125]
 
 example :
     (trace exCfg init exOps).map (fun p => (p.2.acc, p.2.ack, p.2.nSet, p.2.nClr)) =
       [(true, .none, 0, 0), (true, .normal, 1, 0), (true, .normal, 0, 0), (true, .none, 0, 1), (true, .sticky, 1, 0),
        (true, .sticky, 0, 0), (false, .sticky, 0, 0), (true, .none, 0, 1), (true, .none, 0, 0), (true, .sticky, 1, 0),
        (true, .none, 0, 1), (true, .normal, 1, 0), (true, .normal, 0, 0), (true, .normal, 0, 0), (true, .none, 0, 1),
-       (true, .none, 0, 0)] := by
+       (true, .none, 0, 0), (true, .none, 0, 0), (true, .sticky, 1, 0), (true, .sticky, 0, 0), (true, .sticky, 0, 0),
+       (true, .sticky, 0, 0)] := by
   decide
 
 -- the regression case of F-C06a: the acknowledgement set by the `_EXPIRE` command stores its expiry and has run out at
@@ -377,49 +593,137 @@ example : (trace exCfg init regressionOps).map (fun p => (p.2.ack, p.2.expiry, p
 example : specTrace exCfg { state := .critical, ack := .sticky, expiry := 1060, comments := [⟨1050, false, 0⟩] }
     [(.advance 1070,
       { acc := true, ack := .sticky, expiry := 0, handled := true, problem := true, state := .critical, stype := .hard,
-        attempt := 1, nSet := 0, nClr := 0, nAckN := 0, nProbN := 0, comments := [⟨1050, false, 0⟩] })]
+        attempt := 1, nSet := 0, nClr := 0, nAckN := 0, nProbN := 0, comments := [⟨1050, false, 0⟩],
+        raw := .sticky, sevAck := true, suppP := false, suppR := false, nRecN := 0, nRem := 0 })]
     = some .expiryClears := by decide
 
 /-- The specification is not trivially true: a sticky acknowledgement that vanishes on CRITICAL → WARNING is rejected … -/
 example : specTrace exCfg { state := .critical, ack := .sticky, expiry := 0, comments := [] }
     [(.result .warning 1100 1100 1100,
       { acc := true, ack := .none, expiry := 0, handled := false, problem := true, state := .warning, stype := .hard,
-        attempt := 1, nSet := 0, nClr := 1, nAckN := 0, nProbN := 0, comments := [] })]
+        attempt := 1, nSet := 0, nClr := 1, nAckN := 0, nProbN := 0, comments := [],
+        raw := .none, sevAck := false, suppP := false, suppR := false, nRecN := 0, nRem := 0 })]
     = some .stickyKept := by decide
 
 /-- … so is a cleared event that is missing when an acknowledgement runs out … -/
 example : specTrace exCfg { state := .critical, ack := .normal, expiry := 1050, comments := [] }
     [(.advance 1100,
       { acc := true, ack := .none, expiry := 0, handled := false, problem := true, state := .critical, stype := .hard,
-        attempt := 1, nSet := 0, nClr := 0, nAckN := 0, nProbN := 0, comments := [] })]
+        attempt := 1, nSet := 0, nClr := 0, nAckN := 0, nProbN := 0, comments := [],
+        raw := .none, sevAck := false, suppP := false, suppR := false, nRecN := 0, nRem := 0 })]
     = some .clearedEventOnce := by decide
 
 /-- … an accepted acknowledgement of an OK service … -/
 example : specTrace exCfg { state := .ok, ack := .none, expiry := 0, comments := [] }
     [(.ack .api false true false 0 1100,
       { acc := true, ack := .normal, expiry := 0, handled := false, problem := false, state := .ok, stype := .hard,
-        attempt := 1, nSet := 1, nClr := 0, nAckN := 1, nProbN := 0, comments := [⟨1100, false, 0⟩] })]
+        attempt := 1, nSet := 1, nClr := 0, nAckN := 1, nProbN := 0, comments := [⟨1100, false, 0⟩],
+        raw := .normal, sevAck := false, suppP := false, suppR := false, nRecN := 0, nRem := 0 })]
     = some .refuseOk := by decide
 
 /-- … a second acknowledgement accepted on top of one that has not run out (cluster handler) … -/
 example : specTrace exCfg { state := .critical, ack := .normal, expiry := 2000, comments := [] }
     [(.ack .cluster true true false 0 1100,
       { acc := true, ack := .sticky, expiry := 0, handled := true, problem := true, state := .critical, stype := .hard,
-        attempt := 1, nSet := 1, nClr := 0, nAckN := 1, nProbN := 0, comments := [] })]
+        attempt := 1, nSet := 1, nClr := 0, nAckN := 1, nProbN := 0, comments := [],
+        raw := .sticky, sevAck := true, suppP := false, suppR := false, nRecN := 0, nRem := 0 })]
     = some .refuseAcked := by decide
 
 /-- … a second Acknowledgement notification for one acknowledge operation … -/
 example : specTrace exCfg { state := .critical, ack := .none, expiry := 0, comments := [] }
     [(.ack .api false true false 0 1100,
       { acc := true, ack := .normal, expiry := 0, handled := true, problem := true, state := .critical, stype := .hard,
-        attempt := 1, nSet := 1, nClr := 0, nAckN := 2, nProbN := 0, comments := [⟨1100, false, 0⟩] })]
+        attempt := 1, nSet := 1, nClr := 0, nAckN := 2, nProbN := 0, comments := [⟨1100, false, 0⟩],
+        raw := .normal, sevAck := true, suppP := false, suppR := false, nRecN := 0, nRem := 0 })]
     = some .ackNotifyOnce := by decide
 
 /-- … and a comment entered after the clearing result's execution end that disappears. -/
 example : specTrace exCfg { state := .critical, ack := .normal, expiry := 0, comments := [⟨1050, false, 0⟩] }
     [(.result .ok 1040 1040 1100,
       { acc := true, ack := .none, expiry := 0, handled := false, problem := false, state := .ok, stype := .hard,
-        attempt := 1, nSet := 0, nClr := 1, nAckN := 0, nProbN := 0, comments := [] })]
+        attempt := 1, nSet := 0, nClr := 1, nAckN := 0, nProbN := 0, comments := [],
+        raw := .none, sevAck := false, suppP := false, suppR := false, nRecN := 1, nRem := 0 })]
     = some .commentsRemoved := by decide
+
+/-- … a problem that still counts as handled (or sits in the "acknowledged" severity class) although the first reader
+    after the expiry found the acknowledgement gone (`GetHandled()` reading the raw attribute) … -/
+example : specTrace exCfg { state := .critical, ack := .normal, expiry := 1050, comments := [] }
+    [(.advance 1100,
+      { acc := true, ack := .none, expiry := 0, handled := true, problem := true, state := .critical, stype := .hard,
+        attempt := 1, nSet := 0, nClr := 1, nAckN := 0, nProbN := 0, comments := [],
+        raw := .normal, sevAck := false, suppP := false, suppR := false, nRecN := 0, nRem := 0 })]
+    = some .handledIff := by decide
+
+/-- … a raw attribute that changed although nothing but a look happened … -/
+example : specTrace exCfg { state := .critical, ack := .normal, expiry := 0, comments := [] }
+    [(.advance 1100,
+      { acc := true, ack := .normal, expiry := 0, handled := true, problem := true, state := .critical, stype := .hard,
+        attempt := 1, nSet := 0, nClr := 0, nAckN := 0, nProbN := 0, comments := [],
+        raw := .sticky, sevAck := true, suppP := false, suppR := false, nRecN := 0, nRem := 0 })]
+    = some .rawConsistent := by decide
+
+/-- … a sticky, non-persistent acknowledgement whose comment comes out persistent (flags swapped) … -/
+example : specTrace exCfg { state := .critical, ack := .none, expiry := 0, comments := [] }
+    [(.ack .extExpire true true false 1200 1100,
+      { acc := true, ack := .sticky, expiry := 1200, handled := true, problem := true, state := .critical, stype := .hard,
+        attempt := 1, nSet := 1, nClr := 0, nAckN := 1, nProbN := 0, comments := [⟨1100, true, 1200⟩],
+        raw := .sticky, sevAck := true, suppP := false, suppR := false, nRecN := 0, nRem := 0 })]
+    = some .ackComment := by decide
+
+/-- … a remove-acknowledgement that leaves the non-persistent comment behind … -/
+example : specTrace exCfg { state := .critical, ack := .normal, expiry := 0, comments := [⟨1050, false, 0⟩] }
+    [(.remove .api 1100,
+      { acc := true, ack := .none, expiry := 0, handled := false, problem := true, state := .critical, stype := .hard,
+        attempt := 1, nSet := 0, nClr := 1, nAckN := 0, nProbN := 0, comments := [⟨1050, false, 0⟩],
+        raw := .none, sevAck := false, suppP := false, suppR := false, nRecN := 0, nRem := 0 })]
+    = some .removalComments := by decide
+
+/-- … a refusal without reason (CRITICAL, not acknowledged, no expiry) … -/
+example : specTrace exCfg { state := .critical, ack := .none, expiry := 0, comments := [] }
+    [(.ack .api false true false 0 1100,
+      { acc := false, ack := .none, expiry := 0, handled := false, problem := true, state := .critical, stype := .hard,
+        attempt := 1, nSet := 0, nClr := 0, nAckN := 0, nProbN := 0, comments := [],
+        raw := .none, sevAck := false, suppP := false, suppR := false, nRecN := 0, nRem := 0 })]
+    = some .refusalJustified := by decide
+
+/-- … an Acknowledgement notification from a paused object … -/
+example : specTrace exCfg { state := .critical, ack := .none, expiry := 0, comments := [], paused := true }
+    [(.ack .cluster false true false 0 1100,
+      { acc := true, ack := .normal, expiry := 0, handled := true, problem := true, state := .critical, stype := .hard,
+        attempt := 1, nSet := 1, nClr := 0, nAckN := 1, nProbN := 0, comments := [],
+        raw := .normal, sevAck := true, suppP := false, suppR := false, nRecN := 0, nRem := 0 })]
+    = some .ackNotifyOnce := by decide
+
+/-- … a due Problem notification for an acknowledged object (sticky, CRITICAL → WARNING, hard) that is neither
+    requested nor stashed, or stashed as a Recovery … -/
+example : specTrace exCfg { state := .critical, ack := .sticky, expiry := 0, comments := [] }
+    [(.result .warning 1100 1100 1100,
+      { acc := true, ack := .sticky, expiry := 0, handled := true, problem := true, state := .warning, stype := .hard,
+        attempt := 1, nSet := 0, nClr := 0, nAckN := 0, nProbN := 0, comments := [],
+        raw := .sticky, sevAck := true, suppP := false, suppR := false, nRecN := 0, nRem := 0 })]
+    = some .withheldStashed := by decide
+
+example : specTrace exCfg { state := .critical, ack := .sticky, expiry := 0, comments := [] }
+    [(.result .warning 1100 1100 1100,
+      { acc := true, ack := .sticky, expiry := 0, handled := true, problem := true, state := .warning, stype := .hard,
+        attempt := 1, nSet := 0, nClr := 0, nAckN := 0, nProbN := 0, comments := [],
+        raw := .sticky, sevAck := true, suppP := true, suppR := true, nRecN := 0, nRem := 0 })]
+    = some .stashFrame := by decide
+
+/-- … and a Problem notification that stays away although nothing withholds it. -/
+example : specTrace exCfg { state := .critical, ack := .none, expiry := 0, comments := [] }
+    [(.result .warning 1100 1100 1100,
+      { acc := true, ack := .none, expiry := 0, handled := false, problem := true, state := .warning, stype := .hard,
+        attempt := 1, nSet := 0, nClr := 0, nAckN := 0, nProbN := 0, comments := [],
+        raw := .none, sevAck := false, suppP := false, suppR := false, nRecN := 0, nRem := 0 })]
+    = some .notifIffDue := by decide
+
+/-- … and a reminder for an acknowledged problem. -/
+example : specTrace exCfg { state := .critical, ack := .sticky, expiry := 0, comments := [] }
+    [(.remind 1100,
+      { acc := true, ack := .sticky, expiry := 0, handled := true, problem := true, state := .critical, stype := .hard,
+        attempt := 1, nSet := 0, nClr := 0, nAckN := 0, nProbN := 0, comments := [],
+        raw := .sticky, sevAck := true, suppP := false, suppR := false, nRecN := 0, nRem := 1 })]
+    = some .reminderWithheld := by decide
 
 end Icinga.C06
